@@ -103,6 +103,12 @@ def Cfg.counted (c : Cfg) (scr : Nat) (rest : List Instr) : Cfg :=
   { c with code := rest,
            A := c.A.setScr scr fun s => { s with err := if c.retAction = UAction.error then s.err + 1 else 0 } }
 
+/-- `c` after `afterSetup` has discarded the top entry (the code continues with `rest`): the entry is
+popped and the operation traced -/
+def Cfg.discarded (c : Cfg) (rest : List Instr) : Cfg :=
+  ({ c with code := rest, A := { c.A with stack := c.A.stack.dropLast } } : Cfg).trace
+    (.stackOp "discard" c.A.stack.dropLast)
+
 /-- the consecutive-rejections counter of screen `s` after the step out of `c`: only the counting step
 of `process_input` for `s` and an input request of `s` whose prompt is `None` touch it -/
 def Cfg.errAfter (c : Cfg) (s : Nat) : Nat :=
